@@ -123,7 +123,7 @@ def gen_order_op(r: random.Random, w: World, acc: List[str], p_market: float, p_
     if r.random() < p_ttl:
         op["ttl"] = r.choice(ttls)
     if r.random() < 0.04:
-        op["typ"] = r.choice(["np", "fl"])
+        op["typ"] = r.choice(["np", "fl", "fr"])
     return op
 
 
@@ -195,6 +195,7 @@ def gen_engine(r: random.Random, profile: str = "engine") -> Dict[str, Any]:
                  p_market=r.choice([0.0, 0.05, 0.15, 0.3]), p_ttl=r.choice([0.0, 0.4, 0.8]),
                  bigvol=r.random() < 0.15)
     w.knobs["storage_chunk"] = r.choice([None, None, 2, 3, 7])
+    add_user_rules(r, w, p_rewrite=0.12, p_halt=0.08, p_breaker=0.04)
     if profile == "engine_hostile" and r.random() < 0.7:
         # one hostile op, late in the run (the stock runner has no recovery)
         victim = r.choice(w.scripted)
@@ -209,6 +210,58 @@ def gen_engine(r: random.Random, profile: str = "engine") -> Dict[str, Any]:
         where = r.randrange(len(good) + 1)
         turns[pos] = good[:where] + [op] + good[where:]
     return w.scenario()
+
+
+def add_user_rules(r: random.Random, w: World, p_rewrite: float = 0.0, p_halt: float = 0.0, p_breaker: float = 0.0,
+                   p_bystander: float = 0.0, owner: bool = False) -> None:
+    """user-written events next to whatever the profile is about: a rule that rewrites pending orders (kind,
+    side, volume, lifetime, account), the shipped halt rule, a circuit breaker, and bystanders whose hooks do
+    nothing but sit in the dispatch tables before or after the others."""
+    total = w.total_steps()
+
+    def place(name, spec):
+        w.probes[name] = spec
+        w.cfg[name] = {"class": "ProbeEvent"}
+        ev = r.choice(w.sessions).setdefault("events", [])
+        ev.insert(r.randrange(len(ev) + 1), name)
+
+    if r.random() < p_rewrite:
+        rw = {"every": r.choice([1, 1, 2, 3])}
+        u = r.random()
+        if u < 0.4:
+            rw.update({"kind": "L", "off": r.choice([0.0, 0.01, -0.01, 0.03, -0.03])})
+        elif u < 0.55:
+            rw["kind"] = "M"
+        if r.random() < 0.3:
+            rw["flip"] = True
+        if r.random() < 0.3:
+            rw["vol"] = r.choice([1, 3, -1])
+        if r.random() < 0.3:
+            rw["ttl"] = r.choice([1, 2, 4])
+        if owner and r.random() < 0.5:
+            rw["owner"] = r.randrange(8)
+        times = None if r.random() < 0.6 else sorted(r.sample(range(total + 1), min(total + 1, r.randint(1, 5))))
+        place("RW", {"hooks": [{"kind": "order", "before": True, "times": times}], "rewrite": rw})
+    if r.random() < p_halt:
+        plain = [m["name"] for m in w.markets if not m["index"]]
+        w.cfg["THX"] = {"class": "TradingHaltRule", "targetMarkets": [r.choice(plain)],
+                        "triggerChangeRate": r.choice([0.005, 0.01, 0.03]), "haltingTimeLength": r.randint(1, 5), "enabled": True}
+        ev = r.choice(w.sessions).setdefault("events", [])
+        ev.insert(r.randrange(len(ev) + 1), "THX")
+    has_halt = any(isinstance(v, dict) and v.get("class") == "TradingHaltRule" for v in w.cfg.values())
+    if r.random() < p_breaker and not has_halt:  # a breaker that switches matching back on would fight the halt rule
+        place("BRK", {"hooks": [{"kind": "execution", "before": False, "times": None},
+                                {"kind": "market", "before": True, "times": None}],
+                      "breaker": {"after": r.randint(1, 3), "restore": r.random() < 0.5}})
+    if r.random() < p_bystander:
+        kinds = [("order", True), ("order", False), ("cancel", True), ("cancel", False), ("execution", False),
+                 ("market", True), ("market", False), ("session", True)]
+        for k in range(r.randint(1, 2)):
+            hooks = []
+            for kind, before in r.sample(kinds, r.randint(1, 4)):
+                times = None if r.random() < 0.4 else sorted(r.sample(range(total + 1), min(total + 1, r.randint(1, 6))))
+                hooks.append({"kind": kind, "before": before, "times": times})
+            place(f"BY{k}", {"hooks": hooks})
 
 
 # ---------------------------------------------------------------------- generic world with profile switches
@@ -368,6 +421,8 @@ def events_for(r: random.Random, w: World, P: str) -> None:
                                          "at": r.randrange(0, max(1, w.total_steps()))}}
             w.cfg["ISS"] = {"class": "ProbeEvent"}
             w.sessions[0].setdefault("events", []).append("ISS")
+    if P in ("callbacks", "ledger", "logger"):
+        add_user_rules(r, w, p_rewrite=0.08, owner=(P == "callbacks"))
     if P in ("callbacks", "ledger") and r.random() < 0.08:
         # a user-written circuit breaker: switches matching off from inside an after-fill hook
         w.probes["BRK"] = {"hooks": [{"kind": "execution", "before": False, "times": None},
@@ -491,6 +546,7 @@ def gen_rules(r: random.Random, profile: str) -> Dict[str, Any]:
         # shocks landing on the last step of a generation chunk / storage chunk need small chunks in short runs
         w.knobs["generation_chunk"] = r.choice([None, 2, 3, 4, 5, 7])
         w.knobs["storage_chunk"] = r.choice([None, None, 3, 5])
+        add_user_rules(r, w, p_bystander=0.25)
         return w.scenario()
     if P == "limit":
         n = r.randint(2, 4)
@@ -543,6 +599,7 @@ def gen_rules(r: random.Random, profile: str) -> Dict[str, Any]:
                                     **({"ttl": r.randint(1, 5)} if r.random() < 0.4 else {})})
                 turns.append(ops)
             w.scripts[a["name"]] = turns
+        add_user_rules(r, w, p_bystander=0.25)
         return w.scenario()
     if P == "halt":
         n = r.randint(1, 3)
@@ -597,6 +654,7 @@ def gen_rules(r: random.Random, profile: str) -> Dict[str, Any]:
                                     "vol": r.randint(1, 4), **({"ttl": r.randint(1, 4)} if r.random() < 0.5 else {})})
                 turns.append(ops)
             w.scripts[a["name"]] = turns
+        add_user_rules(r, w, p_bystander=0.25)
         return w.scenario()
     raise ValueError(P)
 
@@ -616,7 +674,43 @@ def _jr(r: random.Random, kind: str):
     raise ValueError(kind)
 
 
+def gen_special_books(r: random.Random) -> Dict[str, Any]:
+    """books whose derived quantities take special values: a mid price of exactly zero (a negative bid against
+    the mirrored ask), a one-sided book, quotes straddling the market price - in front of a market maker, in a
+    session without matching so that the market price stays where it was configured."""
+    w = World(r)
+    tick = r.choice([1.0, 0.5])
+    p0 = float(r.choice([100, 300]))
+    d = {"class": "TapMarket", "tickSize": tick, "marketPrice": p0, "fundamentalPrice": p0 * r.choice([1.0, 1.02])}
+    w.cfg["M0"] = d
+    w.cfg["simulation"]["markets"].append("M0")
+    w.markets.append({"name": "M0", "tick": tick, "p0": p0, "index": False})
+    w.add_scripted("SA", 2, False)
+    w.add_group("MM", {"class": "ProbeMM", "numAgents": r.randint(1, 2), "markets": ["M0"], "cashAmount": 100000,
+                       "assetVolume": 100, "targetMarket": "M0", "netInterestSpread": r.choice([0.01, 0.02, 0.05]),
+                       **({"orderTimeLength": r.choice([1, 3])} if r.random() < 0.5 else {})})
+    w.add_session(r.randint(2, 5), True, False, max_normal=4, max_hft=1, rate=1.0)
+    if r.random() < 0.5:
+        w.add_session(r.randint(2, 4), True, True, max_normal=4, max_hft=1, rate=1.0)
+    k = r.choice([1, 2, 4, 8]) * tick
+    kind = r.choice(["zero_mid", "zero_mid", "one_sided", "straddle"])
+    if kind == "zero_mid":
+        first = [{"k": "limit", "m": 0, "side": "b", "px": {"mode": "abs", "v": -k}, "vol": 5},
+                 {"k": "limit", "m": 0, "side": "s", "px": {"mode": "abs", "v": k}, "vol": 5}]
+    elif kind == "one_sided":
+        first = [{"k": "limit", "m": 0, "side": r.choice("bs"), "px": {"mode": "abs", "v": p0 + k}, "vol": 5}]
+    else:
+        first = [{"k": "limit", "m": 0, "side": "b", "px": {"mode": "abs", "v": p0 - 3 * k}, "vol": 5},
+                 {"k": "limit", "m": 0, "side": "s", "px": {"mode": "abs", "v": p0 + k}, "vol": 5}]
+    steps = w.total_steps()
+    for i, a in enumerate(w.scripted):
+        w.scripts[a["name"]] = [first if i == 0 else []] + [[] for _ in range(steps + 1)]
+    return w.scenario()
+
+
 def gen_agents(r: random.Random, profile: str = "agents") -> Dict[str, Any]:
+    if r.random() < 0.03:
+        return gen_special_books(r)
     w = World(r)
     with_index = r.random() < 0.6
     if with_index:
